@@ -238,8 +238,9 @@ func (g *gen) genStatement(typ types.Type, this, that string) error {
 			p.Out()
 			p.P("}")
 		}
-		if _, isArray := elmType.Underlying().(*types.Array); isArray && !canCopy(elmType) {
-			// the elements of an array that sits in a map are not addressable: fill a copy of the array and store that
+		if !canCopy(elmType) {
+			// The copy of the value is built in a variable of its own and stored once it is complete:
+			// what sits in a map is not addressable, and under a key that is not equal to itself (NaN) it cannot be found again.
 			thatvalue := prepend(that, "value")
 			p.P("var %s %s", thatvalue, g.TypeString(elmType))
 			if err := g.genField(elmType, thisvalue, thatvalue); err != nil {
